@@ -166,3 +166,10 @@ func vhAuthorizeEcho(a [][]runtime.SecurityCheck) (bool, int)  { return recho.Vh
 func vhAuthorizeMux(a [][]runtime.SecurityCheck) (bool, int)   { return rmux.VhAuthorize(a) }
 func vhAuthorizeChi(a [][]runtime.SecurityCheck) (bool, int)   { return rchi.VhAuthorize(a) }
 func vhAuthorizeFiber(a [][]runtime.SecurityCheck) (bool, int) { return rfiber.VhAuthorize(a) }
+
+// thorough tier
+func vh_C02_url_gin_T()   { vhC02Url(0, 3) }
+func vh_C02_url_echo_T()  { vhC02Url(1, 3) }
+func vh_C02_url_mux_T()   { vhC02Url(2, 3) }
+func vh_C02_url_chi_T()   { vhC02Url(3, 3) }
+func vh_C02_url_fiber_T() { vhC02Url(4, 3) }
